@@ -68,3 +68,38 @@ Example C06_nonvacuous :
   sv_get (group [(7%N, qz 2); (3%N, qz 5); (9%N, qz 2)]) 9 = Some (qz 2) /\
   group [(7%N, qz 2); (3%N, qz 5); (9%N, qz 2)] = [(qz 2, [7; 9]%N); (qz 5, [3]%N)].
 Proof. vm_compute. split; reflexivity. Qed.
+
+
+(* ---------------------------------------------------------------------------------------------
+   WITH FIXED VALUES (SamplesSubst.v).  C06_get_state assumed that no variable carries a fixed value
+   (substituted_value, as Instance::partial_evaluate leaves it).  The variable values reported by
+   get k after evaluate_samples equal those of the single evaluation also for instances with fixed
+   values, provided (H1) no dependency function mentions a fixed variable (what partial_evaluate
+   leaves behind), (H2) no dependency key is fixed, (H3) the ids are distinct -- each of the three is
+   necessary (h1_refuted, h2_refuted, h3_refuted: evaluate inserts the fixed values before the
+   dependency pass, evaluate_samples does not).  And WHEN evaluate_samples succeeds: under (H1), with
+   supported equalities and in-bound samples, exactly when every single evaluation does
+   (evaluate_samples itself never checks bounds: success_needs_bound_check). *)
+Require Import Ommx.InstTotal Ommx.SamplesSubst.
+Theorem C06_get_state_fixed : forall I S k st ss m1 m2,
+  NoDup (samples_ids S) -> samples_state S k = Some st ->
+  fixed_unread I -> keys_unfixed I -> NoDup (map dv_id (i_dvs I)) ->
+  inst_eval_samples I S = Some ss -> ss_get ss k = Some m1 -> inst_eval I st = Some m2 ->
+  forall i, sget (so_state m1) i = if mem i (map dv_id (i_dvs I)) then sget (so_state m2) i else None.
+Proof. exact get_evaluate_samples_state_H123. Qed.
+Print Assumptions C06_get_state_fixed.
+
+Theorem C06_samples_succeed_iff : forall I S,
+  fixed_unread I ->
+  (forall c, In c (i_cs I) -> supported c) ->
+  (forall r, In r (i_rs I) -> exists c, r_c r = Some c /\ supported c) ->
+  (forall st ids, In (st, ids) S -> check_bound (i_dvs I) st tol7 = true) ->
+  ((exists ss, inst_eval_samples I S = Some ss) <->
+   (forall st ids, In (st, ids) S -> exists sol, inst_eval I st = Some sol)).
+Proof. exact inst_eval_samples_succeeds_iff. Qed.
+Print Assumptions C06_samples_succeed_iff.
+Check h1_refuted.
+Check h2_refuted.
+Check h3_refuted.
+Check nv_theorem_applies.
+Print Assumptions nv_theorem_applies.
